@@ -50,6 +50,14 @@ MODULES = [
     ("decoder/surv.py", "surv"),
     ("decoder/allcall.py", "allcall"),
     ("decoder/uplink.py", "uplink"),
+    ("decoder/uncertainty.py", "uncertainty"),
+    ("extra/aero.py", "aero"),
+    ("decoder/adsb.py", "adsb"),
+    ("decoder/bds/__init__.py", "bds"),
+    ("extra/tcpclient.py", "tcpclient"),
+    ("streamer/source.py", "source"),
+    ("extra/rtlreader.py", "rtlreader"),
+    ("streamer/decode.py", "decode"),
 ]
 
 # names by which one module refers to another -> our namespace
@@ -62,6 +70,7 @@ EXTERNALS = {
     ("py_common", "crc"): ("Ext.common_crc", 2, [None, ast.Constant(False)], ["msg", "encode"]),
     ("py_common", "cprNL"): ("Ext.common_cprNL", 1, [None], ["lat"]),
     ("py_common", "floor"): ("Ext.common_floor", 1, [None], ["x"]),
+    ("aero", "mach2cas"): ("Ext.aero_mach2cas", 2, [None, None], ["Mach", "H"]),
 }
 
 LEAN_KEYWORDS = set("""at from end open show fun in do if then else let have match with by local prefix instance def
@@ -78,6 +87,14 @@ CMPOPS = {ast.Eq: "pyEq", ast.NotEq: "pyNe", ast.Lt: "pyLt", ast.LtE: "pyLe", as
 BUILTINS = {("int", 1): "pyInt1", ("int", 2): "pyInt2", ("len", 1): "pyLen", ("abs", 1): "pyAbs", ("float", 1): "pyFloat",
             ("min", 2): "pyMin2", ("max", 2): "pyMax2", ("bin", 1): "pyBin", ("str", 1): "pyStr"}
 METHODS = {("zfill", 1): "pyZfill", ("upper", 0): "pyUpper", ("replace", 2): "pyReplace"}
+
+
+# libm / numpy scalar functions: evaluated in double precision by externals of Py/Ext.lean (exact transfer of the
+# argument and of the result); only the functions the decoders use
+LIBCALLS = {("math.sqrt", 1): "Ext.math_sqrt", ("math.atan2", 2): "Ext.math_atan2", ("math.degrees", 1): "Ext.math_degrees",
+            ("math.log10", 1): "Ext.math_log10", ("np.floor", 1): "Ext.np_floor", ("np.isclose", 2): "Ext.np_isclose",
+            ("np.cos", 1): "Ext.np_cos", ("np.arccos", 1): "Ext.np_arccos"}
+LIBCONSTS = {"np.pi": "Ext.np_pi", "math.pi": "Ext.np_pi"}
 
 
 class Unsupported(Exception):
@@ -124,9 +141,38 @@ def lean_num(v):
     return "(Val.num ((%d : Rat) / %d))" % (fr.numerator, fr.denominator)
 
 
+def pure_literal(e, consts):
+    """Lean `Val` term for literal data (module-level tables), or raise Unsupported"""
+    if isinstance(e, ast.Constant):
+        v = e.value
+        if v is None:
+            return "Val.none"
+        if v is True or v is False:
+            return "(Val.bool %s)" % ("true" if v else "false")
+        if isinstance(v, (int, float)):
+            return lean_num(v)
+        if isinstance(v, str):
+            return lean_str(v)
+        raise Unsupported("constant")
+    if isinstance(e, ast.UnaryOp) and isinstance(e.op, ast.USub) and isinstance(e.operand, ast.Constant) \
+            and isinstance(e.operand.value, (int, float)) and not isinstance(e.operand.value, bool):
+        return lean_num(-e.operand.value)
+    if isinstance(e, (ast.List, ast.Tuple, ast.Set)):
+        return "(Val.tuple [%s])" % ", ".join(pure_literal(x, consts) for x in e.elts)
+    if isinstance(e, ast.Dict):
+        if any(k is None for k in e.keys):
+            raise Unsupported("dict unpacking")
+        return "(Val.dict [%s])" % ", ".join("(%s, %s)" % (pure_literal(k, consts), pure_literal(v, consts))
+                                             for k, v in zip(e.keys, e.values))
+    if isinstance(e, ast.Name) and e.id in consts:
+        return ident(e.id)
+    raise Unsupported("not literal data")
+
+
 class FnInfo:
-    def __init__(self, module, name, node, argnames, defaults):
+    def __init__(self, module, name, node, argnames, defaults, cls=None):
         self.module, self.name, self.node, self.argnames, self.defaults = module, name, node, argnames, defaults
+        self.cls = cls      # class name for a method (then argnames[0] is the receiver)
         self.lean = None
         self.reason = None
         self.deps = set()
@@ -138,6 +184,9 @@ class ModuleCtx:
         self.funcs = {}       # name -> FnInfo (module-level defs)
         self.imports = {}     # local name -> (module ns, attr or None)
         self.decorators = {}  # decorator name -> (inner wrapper FunctionDef, func param name)
+        self.classes = {}     # class name -> dict(bases=[names], methods={name: FnInfo})
+        self.consts = {}      # module-level NAME -> lean term (literal data: numbers, strings, None, lists, dicts)
+        self.const_order = []
 
 
 class Translator:
@@ -181,10 +230,62 @@ class Translator:
                     mc.path, node.lineno, fi.name, ident(fi.name), wparams, wbody)
                 fi.deps |= wt.deps
             fi.deps |= ft.deps
+            fi.deps |= {(cns, "") for (cns, _c) in ft.const_deps if cns != mc.ns}
+            fi.partial = list(ft.partial)
             fi.lean = text
         except Unsupported as e:
             fi.reason = str(e)
         return fi
+
+    def find_method(self, mc, cls, name):
+        """method `name` of class `cls` (own, then base classes, across the loaded modules) -> (ModuleCtx, FnInfo) or None"""
+        seen = set()
+        todo = [(mc, cls)]
+        while todo:
+            m, c = todo.pop(0)
+            if (m.ns, c) in seen:
+                continue
+            seen.add((m.ns, c))
+            cd = m.classes.get(c)
+            if cd is None:
+                # imported class?
+                imp = m.imports.get(c)
+                if imp and imp[0] in self.mods and imp[1] in self.mods[imp[0]].classes:
+                    todo.append((self.mods[imp[0]], imp[1]))
+                continue
+            if name in cd["methods"]:
+                return m, cd["methods"][name]
+            for b in cd["bases"]:
+                todo.append((m, b))
+        return None
+
+    def method_is_pure(self, mc, cls, name, seen=None):
+        """the method neither stores into its receiver nor calls something that might (syntactic check)"""
+        seen = seen or set()
+        found = self.find_method(mc, cls, name)
+        if found is None or (cls, name) in seen:
+            return False
+        seen.add((cls, name))
+        tmc, tfi = found
+        recv = tfi.argnames[0]
+
+        def rooted(e):
+            while isinstance(e, (ast.Attribute, ast.Subscript)):
+                e = e.value
+            return isinstance(e, ast.Name) and e.id == recv
+        for n in ast.walk(tfi.node):
+            if isinstance(n, (ast.Assign, ast.AugAssign, ast.AnnAssign)):
+                tgts = n.targets if isinstance(n, ast.Assign) else [n.target]
+                for t in tgts:
+                    if not isinstance(t, ast.Name) and rooted(t):
+                        return False
+            if isinstance(n, ast.Call) and isinstance(n.func, ast.Attribute) and rooted(n.func.value):
+                if isinstance(n.func.value, ast.Name):
+                    if not self.method_is_pure(tmc, tfi.cls, n.func.attr, seen):
+                        return False
+                elif n.func.attr in ("append", "extend", "send", "put", "close", "clear", "pop", "remove", "insert"):
+                    return False
+        return True
 
     def resolve_call(self, mc, func):
         """-> (lean name, argnames, defaults, dep key) for a call target, or raise Unsupported"""
@@ -201,6 +302,35 @@ class Translator:
                 tgt_mc, tgt = self.mods[ns], self.mods[ns].funcs[attr]
             else:
                 raise Unsupported("call to %s" % name)
+        elif (isinstance(func, ast.Attribute) and isinstance(func.value, ast.Attribute) and isinstance(func.value.value, ast.Name)
+              and mc.imports.get(func.value.value.id, (None, None))[0] == "pyModeS"):
+            # pms.adsb.f / pms.commb.f / pms.bds.f / pms.common.f
+            sub = func.value.attr
+            cands = {"adsb": ["adsb"], "common": ["py_common"], "bds": ["bds"],
+                     "commb": [n for n in self.mods if n.startswith("bds") and n != "bds"]}.get(sub, [])
+            tgt_mc = tgt = None
+            for ns in cands:
+                if ns not in self.mods:
+                    continue
+                m2 = self.mods[ns]
+                if func.attr in m2.funcs:
+                    tgt_mc, tgt = m2, m2.funcs[func.attr]
+                    break
+                imp = m2.imports.get(func.attr)
+                if imp and imp[1] and imp[0] in self.mods and imp[1] in self.mods[imp[0]].funcs:
+                    tgt_mc, tgt = self.mods[imp[0]], self.mods[imp[0]].funcs[imp[1]]
+                    break
+            if tgt is None:
+                raise Unsupported("call to %s" % ast.unparse(func))
+        elif (isinstance(func, ast.Attribute) and isinstance(func.value, ast.Name)
+              and mc.imports.get(func.value.id, (None, None))[0] == "pyModeS"):
+            # pms.df / pms.icao / ... : `from .common import *` of the package
+            if (("py_common", func.attr) in EXTERNALS):
+                e = EXTERNALS[("py_common", func.attr)]
+                return e[0], e[3], e[2], None
+            if "py_common" not in self.mods or func.attr not in self.mods["py_common"].funcs:
+                raise Unsupported("call to %s" % ast.unparse(func))
+            tgt_mc, tgt = self.mods["py_common"], self.mods["py_common"].funcs[func.attr]
         elif isinstance(func, ast.Attribute) and isinstance(func.value, ast.Name):
             modname = func.value.id
             ns = mc.imports.get(modname, (MODULE_ALIASES.get(modname), None))[0] if modname in mc.imports else None
@@ -219,7 +349,7 @@ class Translator:
         r = self.translate_function(tgt_mc, tgt)
         if r.lean is None:
             raise Unsupported("calls %s.%s (%s)" % (tgt_mc.ns, tgt.name, r.reason or "in progress"))
-        lean = "%s.%s" % (tgt_mc.ns, ident(tgt.name)) if tgt_mc is not mc else ident(tgt.name)
+        lean = "Gen.%s.%s" % (tgt_mc.ns, ident(tgt.name))   # qualified: a local variable may be called like a module
         return lean, tgt.argnames, tgt.defaults, (tgt_mc.ns, tgt.name)
 
 
@@ -228,13 +358,19 @@ class FnTranslator:
         self.tr, self.mc, self.fi = tr, mc, fi
         self.func_alias = func_alias
         self.deps = set()
+        self.const_deps = set()
+        self.partial = []
         self.tmp = 0
 
     # ---------------------------------------------------------------- statements
     def function(self, body, argnames):
         self.params = list(argnames)
+        self.is_method = self.fi.cls is not None and self.func_alias is None
         counts, first_depth = {}, {}
         self.scan(body, 0, counts, first_depth)
+        if self.is_method:
+            counts[argnames[0]] = counts.get(argnames[0], 0) + 2   # the receiver is threaded through as a mutable value
+            first_depth.setdefault(argnames[0], 0)
         self.locals = set(counts) | set(argnames)
         self.mutable = set()
         pre = []
@@ -247,10 +383,16 @@ class FnTranslator:
                 if first_depth[name] > 0:
                     pre.append("  let mut %s : Val := Val.none" % ident(name))
         self.declared = set(argnames) | {n for n in counts if first_depth[n] > 0}
-        lines = pre + self.block(body, 1)
+        lines = pre + self.block(body, 1, self.always_leaves(body))
         if not self.always_leaves(body):
-            lines.append("  return Val.none")
+            lines.append("  return %s" % self.ret("Val.none"))
         return "\n".join(lines)
+
+    def ret(self, term):
+        """what a `return term` hands back: methods return (receiver, value)"""
+        if getattr(self, "is_method", False):
+            return "(Val.tuple [%s, %s])" % (ident(self.params[0]), term)
+        return term
 
     def always_leaves(self, stmts):
         """every path through the block ends in return / raise (so falling off the end is impossible)"""
@@ -266,6 +408,9 @@ class FnTranslator:
     def scan(self, stmts, depth, counts, first_depth):
         for s in stmts:
             targets = []
+            if (isinstance(s, ast.Expr) and isinstance(s.value, ast.Call) and isinstance(s.value.func, ast.Attribute)
+                    and isinstance(s.value.func.value, ast.Name) and s.value.func.attr in ("append", "extend")):
+                targets += [s.value.func.value.id, s.value.func.value.id]
             if isinstance(s, ast.Assign):
                 for t in s.targets:
                     targets += self.target_names(t)
@@ -277,6 +422,17 @@ class FnTranslator:
             elif isinstance(s, ast.If):
                 self.scan(s.body, depth + 1, counts, first_depth)
                 self.scan(s.orelse, depth + 1, counts, first_depth)
+            elif isinstance(s, ast.While):
+                self.scan(s.body, depth + 1, counts, first_depth)
+            elif isinstance(s, ast.For):
+                for n in self.target_names(s.target):
+                    counts[n] = counts.get(n, 0) + 2
+                    first_depth.setdefault(n, depth + 1)
+                self.scan(s.body, depth + 1, counts, first_depth)
+            elif isinstance(s, ast.Try):
+                self.scan(s.body, depth + 1, counts, first_depth)
+                for h in s.handlers:
+                    self.scan(h.body, depth + 1, counts, first_depth)
             for n in targets:
                 counts[n] = counts.get(n, 0) + 1
                 first_depth.setdefault(n, depth)
@@ -284,17 +440,88 @@ class FnTranslator:
     def target_names(self, t):
         if isinstance(t, ast.Name):
             return [t.id]
+        if isinstance(t, ast.Subscript) and isinstance(t.value, ast.Name) and not isinstance(t.slice, ast.Slice):
+            return [t.value.id, t.value.id]   # x[i] = v re-binds x (lists are values in the model)
+        if isinstance(t, (ast.Attribute, ast.Subscript)):
+            r = t
+            while isinstance(r, (ast.Attribute, ast.Subscript)):
+                r = r.value
+            if isinstance(r, ast.Name):
+                return [r.id, r.id]
         if isinstance(t, (ast.Tuple, ast.List)):
             return sum((self.target_names(e) for e in t.elts), [])
+        if isinstance(t, ast.Starred):
+            raise Unsupported("starred target")
         raise Unsupported("assignment target " + type(t).__name__)
 
-    def block(self, stmts, ind):
+    def block(self, stmts, ind, terminal=False):
+        """`terminal`: the block is the last thing the function does (its last statement must have the function's type)"""
         out = []
-        for s in stmts:
-            out += self.stmt(s, ind)
+        stmts = self.expand_aliases(list(stmts))
+        for k, s in enumerate(stmts):
+            out += self.stmt_or_unmodelled(s, ind, terminal and k == len(stmts) - 1)
         if not out:
             out.append("  " * ind + "pure ()")
         return out
+
+    def expand_aliases(self, stmts):
+        """`ac = self.acs[icao]` followed by stores through `ac` (ac["k"] = v): Python mutates the object inside self.acs.
+        Values have no identity in the model, so the alias is expanded: the rest of the block uses the path itself.
+        Only done when neither the alias nor a name in the path is assigned again in the rest of the block."""
+        for k, s in enumerate(stmts):
+            if not (isinstance(s, ast.Assign) and len(s.targets) == 1 and isinstance(s.targets[0], ast.Name)
+                    and isinstance(s.value, (ast.Subscript, ast.Attribute)) and self.rooted_local(s.value)):
+                continue
+            alias, path = s.targets[0].id, s.value
+            rest = stmts[k + 1:]
+            stores = False
+            reassigned = False
+            path_names = {n.id for n in ast.walk(path) if isinstance(n, ast.Name)}
+            for r in rest:
+                for n in ast.walk(r):
+                    tg = []
+                    if isinstance(n, ast.Assign):
+                        tg = n.targets
+                    elif isinstance(n, (ast.AugAssign, ast.AnnAssign)):
+                        tg = [n.target]
+                    elif isinstance(n, ast.For):
+                        tg = [n.target]
+                    for t in tg:
+                        for e in (t.elts if isinstance(t, (ast.Tuple, ast.List)) else [t]):
+                            if isinstance(e, ast.Name) and (e.id == alias or e.id in path_names):
+                                reassigned = True
+                            b = e
+                            while isinstance(b, (ast.Subscript, ast.Attribute)):
+                                b = b.value
+                            if not isinstance(e, ast.Name) and isinstance(b, ast.Name) and b.id == alias:
+                                stores = True
+            if stores and not reassigned:
+                class Sub(ast.NodeTransformer):
+                    def visit_Name(self_, node):
+                        if node.id == alias:
+                            import copy
+                            new = copy.deepcopy(path)
+                            for x in ast.walk(new):
+                                if hasattr(x, "ctx"):
+                                    x.ctx = ast.Load()
+                            if isinstance(node.ctx, ast.Store):
+                                new.ctx = ast.Store()
+                            return new
+                        return node
+                new_rest = [ast.fix_missing_locations(Sub().visit(r)) for r in rest]
+                return stmts[:k] + self.expand_aliases(new_rest)
+        return stmts
+
+    def stmt_or_unmodelled(self, s, ind, terminal):
+        """inside a branch, a statement outside the subset becomes `pyUnmodelled`: the model stops with an exception if
+        that path is ever taken (recorded as a partial translation); at the top level of a function it is fatal"""
+        try:
+            return self.stmt(s, ind, terminal)
+        except Unsupported as e:
+            if ind <= 1 or isinstance(s, (ast.Return, ast.Raise)):
+                raise
+            self.partial.append("line %d: %s" % (getattr(s, "lineno", 0), e))
+            return ["  " * ind + "(pyUnmodelled \"%s\" : Res %s)" % (str(e).replace('"', "'")[:60], "Val" if terminal else "PUnit")]
 
     def assign(self, name, rhs_res, ind, pure):
         """rhs_res: Lean term; pure=True when it is a `Val`, else a `Res Val`"""
@@ -306,13 +533,40 @@ class FnTranslator:
         mut = "mut " if name in self.mutable else ""
         return [pad + "let %s%s %s %s" % (mut, ident(name), arrow, rhs_res)]
 
-    def stmt(self, s, ind):
+    def stmt(self, s, ind, terminal=False):
         pad = "  " * ind
+        self.cur_ind = ind
         if isinstance(s, ast.Expr):
             if isinstance(s.value, ast.Constant):
                 return []  # docstring
             if isinstance(s.value, ast.Call) and ast.unparse(s.value.func) in ("warnings.warn",):
                 return []  # no effect on the returned value
+            c = s.value
+            if isinstance(c, ast.Call) and isinstance(c.func, ast.Name) and c.func.id == "print":
+                return []  # console output is not part of any property
+            mcall = self.method_call(c)
+            if mcall is not None:
+                lines, _value = mcall(ind)
+                return lines
+            if (isinstance(c, ast.Call) and isinstance(c.func, ast.Attribute) and c.func.attr in ("append", "extend")
+                    and len(c.args) == 1 and not c.keywords and self.rooted_local(c.func.value)
+                    and not isinstance(c.func.value, ast.Name)):
+                # self.x.append(v) / self.x[k].append(v): functional update along the path
+                prim = "pyAppend" if c.func.attr == "append" else "pyExtend"
+                return self.store(c.func.value, "%s %s %s" % (prim, self.val(c.func.value), self.val(c.args[0])), False, ind)
+            if (getattr(self, "is_method", False) and isinstance(c, ast.Call) and isinstance(c.func, ast.Attribute)
+                    and self.rooted_local(c.func.value) and isinstance(c.func.value, ast.Attribute) and not c.keywords):
+                # self.<object>.<method>(args): an effect on a collaborator (pipe, socket, queue): recorded as an output event
+                recv = ident(self.params[0])
+                label = "%s.%s" % (ast.unparse(c.func.value).split(".", 1)[1], c.func.attr)
+                args = "(Val.tuple [%s])" % ", ".join(self.val(a) for a in c.args)
+                return [pad + "%s ← pyEmit %s \"%s\" %s" % (recv, recv, label, args)]
+            if (isinstance(c, ast.Call) and isinstance(c.func, ast.Attribute) and isinstance(c.func.value, ast.Name)
+                    and c.func.value.id in self.locals and c.func.attr in ("append", "extend") and len(c.args) == 1 and not c.keywords):
+                # x.append(v): functional update of the local list (aliases of x are not modelled)
+                name = c.func.value.id
+                prim = "pyAppend" if c.func.attr == "append" else "pyExtend"
+                return self.assign(name, "%s %s %s" % (prim, ident(name), self.val(c.args[0])), ind, False)
             raise Unsupported("expression statement")
         if isinstance(s, ast.Pass):
             return []
@@ -324,6 +578,12 @@ class FnTranslator:
             if len(s.targets) != 1:
                 raise Unsupported("chained assignment")
             return self.do_assign(s.targets[0], s.value, ind)
+        if isinstance(s, ast.AugAssign) and isinstance(s.target, ast.Subscript):
+            op = BINOPS.get(type(s.op))
+            if op is None:
+                raise Unsupported("operator " + type(s.op).__name__)
+            load = ast.Subscript(value=s.target.value, slice=s.target.slice, ctx=ast.Load())
+            return self.do_assign(s.target, ast.BinOp(left=load, op=s.op, right=s.value), ind)
         if isinstance(s, ast.AugAssign):
             if not isinstance(s.target, ast.Name):
                 raise Unsupported("augmented assignment target")
@@ -334,8 +594,12 @@ class FnTranslator:
             return self.assign(s.target.id, rhs, ind, False)
         if isinstance(s, ast.Return):
             if s.value is None:
-                return [pad + "return Val.none"]
-            return [pad + "return %s" % self.val(s.value)]
+                return [pad + "return %s" % self.ret("Val.none")]
+            mcall = self.method_call(s.value)
+            if mcall is not None:
+                lines, value = mcall(ind)
+                return lines + [pad + "return %s" % self.ret(value)]
+            return [pad + "return %s" % self.ret(self.val(s.value))]
         if isinstance(s, ast.Raise):
             kind = "rte"
             if s.exc is None:
@@ -343,20 +607,191 @@ class FnTranslator:
             f = s.exc.func if isinstance(s.exc, ast.Call) else s.exc
             if not (isinstance(f, ast.Name) and f.id == "RuntimeError"):
                 kind = "exc"
-            return [pad + "(Res.%s : Res PUnit)" % kind]
+            return [pad + "(Res.%s : Res %s)" % (kind, "Val" if terminal else "PUnit")]
         if isinstance(s, ast.If):
             out = [pad + "if pyTruth %s then" % self.val(s.test)]
-            out += self.block(s.body, ind + 1)
+            out += self.block(s.body, ind + 1, terminal)
             if s.orelse:
                 out.append(pad + "else")
-                out += self.block(s.orelse, ind + 1)
+                out += self.block(s.orelse, ind + 1, terminal)
+            return out
+        if isinstance(s, ast.For):
+            if s.orelse:
+                raise Unsupported("for/else")
+            self.tmp += 1
+            it = "it__%d" % self.tmp
+            out = [pad + "for %s in (← pyIter %s) do" % (it, self.val(s.iter))]
+            out += self.bind_target(s.target, it, ind + 1)
+            self.loops = getattr(self, "loops", []) + [None]
+            try:
+                out += self.block(s.body, ind + 1)
+            finally:
+                self.loops = self.loops[:-1]
+            return out
+        if isinstance(s, ast.While):
+            if s.orelse:
+                raise Unsupported("while/else")
+            # a `while` loop gets WHILE_FUEL iterations; running out of fuel is reported as an exception
+            self.tmp += 1
+            fu = "fuel__%d" % self.tmp
+            out = [pad + "let mut %s := true" % fu,
+                   pad + "for _ in [0:whileFuel] do",
+                   pad + "  if !(pyTruth %s) then" % self.val(s.test),
+                   pad + "    %s := false" % fu,
+                   pad + "    break"]
+            self.loops = getattr(self, "loops", []) + [fu]
+            try:
+                out += self.block(s.body, ind + 1)
+            finally:
+                self.loops = self.loops[:-1]
+            out += [pad + "if %s then" % fu, pad + "  (Res.exc : Res PUnit)"]
+            return out
+        if isinstance(s, ast.Delete):
+            out = []
+            for t in s.targets:
+                if not (isinstance(t, ast.Subscript) and not isinstance(t.slice, ast.Slice) and self.rooted_local(t)):
+                    raise Unsupported("del of " + type(t).__name__)
+                out += self.store(t.value, "pyDelItem %s %s" % (self.val(t.value), self.val(t.slice)), False, ind)
+            return out
+        if isinstance(s, ast.Break):
+            fu = (getattr(self, "loops", []) or [None])[-1]
+            if fu is not None:
+                return [pad + "%s := false" % fu, pad + "break"]   # leaving a `while` by `break` is a normal exit
+            return [pad + "break"]
+        if isinstance(s, ast.Continue):
+            return [pad + "continue"]
+        if isinstance(s, ast.Try):
+            if s.orelse or s.finalbody or len(s.handlers) != 1:
+                raise Unsupported("try/else/finally or several handlers")
+            h = s.handlers[0]
+            if h.name is not None:
+                raise Unsupported("except ... as name")
+            tname = None if h.type is None else (h.type.id if isinstance(h.type, ast.Name) else None)
+            if h.type is not None and tname is None:
+                raise Unsupported("except with a tuple of types")
+            kind = "Err.rte" if tname == "RuntimeError" else ("Err.any" if tname in (None, "Exception", "BaseException") else "Err.exc")
+            out = [pad + "try"]
+            out += self.block(s.body, ind + 1)
+            out.append(pad + "catch e__ =>")
+            out.append(pad + "  if !(e__.caughtBy %s) then throw e__" % kind)
+            out += self.block(h.body, ind + 1)
             return out
         raise Unsupported("statement " + type(s).__name__)
 
+    def bind_target(self, target, src, ind):
+        """bind a loop / comprehension target to the Lean variable `src`"""
+        if isinstance(target, ast.Name):
+            return self.assign(target.id, src, ind, True)
+        if isinstance(target, (ast.Tuple, ast.List)) and all(isinstance(e, ast.Name) for e in target.elts):
+            out = ["  " * ind + "pyUnpackCheck %s %d" % (src, len(target.elts))]
+            for i, e in enumerate(target.elts):
+                out += self.assign(e.id, "pyIdxN %s %d" % (src, i), ind, False)
+            return out
+        raise Unsupported("loop target " + type(target).__name__)
+
+    def comprehension(self, e):
+        """[elt for target in iter if cond ...] -> pyComp iter (fun x => do ...; return some elt / none)"""
+        if len(e.generators) != 1 or e.generators[0].is_async:
+            raise Unsupported("nested comprehension")
+        g = e.generators[0]
+        it = self.val(g.iter)
+        self.tmp += 1
+        x = "x__%d" % self.tmp
+        names = self.target_names(g.target)
+        saved = (set(self.locals), set(self.declared), set(self.mutable))
+        for n in names:
+            self.locals.add(n)
+            self.declared.discard(n)
+            self.mutable.discard(n)
+        try:
+            lines = self.bind_target(g.target, x, 0)
+            for c in g.ifs:
+                lines.append("if !(pyTruth %s) then return none" % self.val(c))
+            lines.append("return some %s" % self.val(e.elt))
+        finally:
+            self.locals, self.declared, self.mutable = saved
+        pad = "  " * (getattr(self, "cur_ind", 1) + 3)
+        body = "".join("\n" + pad + l.strip() for l in lines)
+        return "pyComp %s (fun %s => do%s)" % (it, x, body)
+
+    def rooted_local(self, e):
+        """an attribute / subscript path whose root is a local variable (e.g. self.acs[icao]["t"])"""
+        while isinstance(e, (ast.Attribute, ast.Subscript)):
+            e = e.value
+        return isinstance(e, ast.Name) and e.id in self.locals
+
+    def store(self, target, term, pure, ind):
+        """assign the Lean term (a `Val` if pure, else a `Res Val`) to a Python l-value path, functionally"""
+        if isinstance(target, ast.Name):
+            return self.assign(target.id, term, ind, pure)
+        self.tmp += 1
+        t = "s__%d" % self.tmp
+        out = ["  " * ind + "let %s %s %s" % (t, ":=" if pure else "←", term)]
+        if isinstance(target, ast.Attribute):
+            new = "pySetAttr %s \"%s\" %s" % (self.val(target.value), target.attr, t)
+        elif isinstance(target, ast.Subscript) and not isinstance(target.slice, ast.Slice):
+            new = "pySetItem %s %s %s" % (self.val(target.value), self.val(target.slice), t)
+        else:
+            raise Unsupported("assignment target " + type(target).__name__)
+        return out + self.store(target.value, new, False, ind)
+
+    def method_call(self, c):
+        """`self.m(args)` where m is a translated method of the receiver's class -> function(ind) -> (lines, value term)"""
+        if not (getattr(self, "is_method", False) and isinstance(c, ast.Call) and isinstance(c.func, ast.Attribute)
+                and isinstance(c.func.value, ast.Name) and c.func.value.id == self.params[0]):
+            return None
+        found = self.tr.find_method(self.mc, self.fi.cls, c.func.attr)
+        if found is None:
+            raise Unsupported("method %s of an object" % c.func.attr)
+        tmc, tfi = found
+        r = self.tr.translate_function(tmc, tfi)
+        if r.lean is None:
+            raise Unsupported("calls method %s (%s)" % (tfi.name, r.reason or "in progress"))
+        self.deps.add((tmc.ns, tfi.name))
+        if c.keywords or len(c.args) != len(tfi.argnames) - 1:
+            raise Unsupported("method call shape")
+        lean = "Gen.%s.%s" % (tmc.ns, ident(tfi.name))
+        recv = ident(self.params[0])
+
+        def emit(ind):
+            self.tmp += 1
+            r_ = "r__%d" % self.tmp
+            pad = "  " * ind
+            lines = [pad + "let %s ← %s %s" % (r_, lean, " ".join([recv] + [self.val(a) for a in c.args])),
+                     pad + "%s ← pyIdxN %s 0" % (recv, r_)]
+            return lines, "(← pyIdxN %s 1)" % r_
+        return emit
+
     def do_assign(self, target, value, ind):
+        mcall = self.method_call(value) if isinstance(target, ast.Name) else None
+        if mcall is not None:
+            lines, v = mcall(ind)
+            return lines + self.assign(target.id, v[3:-1] if v.startswith("(← ") else v, ind, False)
+        if isinstance(target, (ast.Attribute, ast.Subscript)) and not isinstance(target, ast.Name) and \
+                not (isinstance(target, ast.Subscript) and isinstance(target.value, ast.Name)) and self.rooted_local(target) \
+                and not (isinstance(target, ast.Subscript) and isinstance(target.slice, ast.Slice)):
+            term, pure = self.res(value)
+            return self.store(target, term, pure, ind)
+        if isinstance(target, ast.Subscript) and isinstance(target.value, ast.Name) and not isinstance(target.slice, ast.Slice):
+            # x[i] = v : functional update of the local list / dict (aliases of x are not modelled)
+            name = target.value.id
+            if name not in self.locals:
+                raise Unsupported("item assignment to a global")
+            return self.assign(name, "pySetItem %s %s %s" % (ident(name), self.val(target.slice), self.val(value)), ind, False)
         if isinstance(target, ast.Name):
             term, pure = self.res(value)
             return self.assign(target.id, term, ind, pure)
+        if isinstance(target, (ast.Tuple, ast.List)) and not all(isinstance(e, ast.Name) for e in target.elts) \
+                and all(isinstance(e, ast.Name) or self.rooted_local(e) for e in target.elts):
+            # a, x["k"], self.y = f(): unpack into l-value paths
+            self.tmp += 1
+            t = "t__%d" % self.tmp
+            term, pure = self.res(value)
+            out = ["  " * ind + "let %s %s %s" % (t, ":=" if pure else "←", term),
+                   "  " * ind + "pyUnpackCheck %s %d" % (t, len(target.elts))]
+            for i, e in enumerate(target.elts):
+                out += self.store(e, "pyIdxN %s %d" % (t, i), False, ind)
+            return out
         if isinstance(target, (ast.Tuple, ast.List)) and all(isinstance(e, ast.Name) for e in target.elts):
             names = [e.id for e in target.elts]
             out = []
@@ -403,7 +838,28 @@ class FnTranslator:
         if isinstance(e, ast.Name):
             if e.id in self.locals:
                 return ident(e.id), True
+            if e.id in self.mc.consts:
+                self.const_deps.add((self.mc.ns, e.id))
+                return "Gen.%s.%s" % (self.mc.ns, ident(e.id)), True
             raise Unsupported("global name " + e.id)
+        if isinstance(e, ast.Attribute) and self.rooted_local(e.value):
+            return "pyGetAttr %s \"%s\"" % (self.val(e.value), e.attr), False
+        if isinstance(e, ast.Attribute) and ast.unparse(e) in LIBCONSTS and e.value.id not in self.locals:
+            return LIBCONSTS[ast.unparse(e)], True
+        if isinstance(e, ast.Attribute) and isinstance(e.value, ast.Name) and e.value.id not in self.locals:
+            ns = self.mc.imports.get(e.value.id, (None, None))[0]
+            if ns in self.tr.mods and e.attr in self.tr.mods[ns].consts:
+                self.const_deps.add((ns, e.attr))
+                return "Gen.%s.%s" % (ns, ident(e.attr)), True
+            raise Unsupported("attribute %s.%s" % (e.value.id, e.attr))
+        if isinstance(e, ast.Dict):
+            if any(k is None for k in e.keys):
+                raise Unsupported("dict unpacking")
+            return "(Val.dict [%s])" % ", ".join("(%s, %s)" % (self.val(k), self.val(v)) for k, v in zip(e.keys, e.values)), True
+        if isinstance(e, ast.Set):
+            return "(Val.tuple [%s])" % ", ".join(self.val(x) for x in e.elts), True
+        if isinstance(e, (ast.ListComp, ast.GeneratorExp)):
+            return self.comprehension(e), False
         if isinstance(e, ast.UnaryOp):
             if isinstance(e.op, ast.USub):
                 if isinstance(e.operand, ast.Constant) and isinstance(e.operand.value, (int, float)) and not isinstance(e.operand.value, bool):
@@ -517,11 +973,93 @@ class FnTranslator:
 
     def call(self, e):
         f = e.func
+        # --- a method of the receiver that does not change it, used inside an expression
+        if (getattr(self, "is_method", False) and isinstance(f, ast.Attribute) and isinstance(f.value, ast.Name)
+                and f.value.id == self.params[0]):
+            if not self.tr.method_is_pure(self.mc, self.fi.cls, f.attr):
+                raise Unsupported("state-changing method %s inside an expression" % f.attr)
+            mc_ = self.method_call(e)
+            if mc_ is None:
+                raise Unsupported("method %s" % f.attr)
+            found = self.tr.find_method(self.mc, self.fi.cls, f.attr)
+            tmc, tfi = found
+            lean = "Gen.%s.%s" % (tmc.ns, ident(tfi.name))
+            return "pyIdxN (← %s %s) 1" % (lean, " ".join([ident(self.params[0])] + [self.val(a) for a in e.args]))
         # --- the decorated function called from its wrapper
         if self.func_alias and isinstance(f, ast.Name) and f.id == self.func_alias[0]:
             if e.keywords or len(e.args) != self.func_alias[2]:
                 raise Unsupported("wrapper call shape")
             return "%s %s" % (self.func_alias[1], " ".join(self.val(a) for a in e.args))
+        if ast.unparse(f) == "np.array" and len(e.args) == 1 and not e.keywords:
+            return "pyList %s" % self.val(e.args[0])   # arrays and lists are one kind of value in the model
+        lib = LIBCALLS.get((ast.unparse(f), len(e.args)))
+        if lib is not None and not e.keywords:
+            return "%s %s" % (lib, " ".join(self.val(a) for a in e.args))
+        if ast.unparse(f) == "time.time" and not e.args:
+            return "Ext.time_time"
+        # --- iteration helpers
+        if isinstance(f, ast.Name) and f.id not in self.mc.funcs and f.id not in self.locals and not e.keywords:
+            n = len(e.args)
+            if f.id == "dict" and n == 0:
+                return "pure (Val.dict [])"
+            if f.id in ("min", "max") and n == 1:
+                return "py%sList %s" % (f.id.capitalize(), self.val(e.args[0]))
+            if f.id == "isinstance" and n == 2 and isinstance(e.args[1], ast.Name) and e.args[1].id in (
+                    "dict", "str", "int", "float", "list", "tuple", "bool"):
+                return "pyIsInstance %s %s" % (self.val(e.args[0]), lean_str(e.args[1].id))
+            if f.id == "chr" and n == 1:
+                return "pyChr %s" % self.val(e.args[0])
+            if f.id == "zip" and n == 2:
+                return "pyZip %s %s" % (self.val(e.args[0]), self.val(e.args[1]))
+            if f.id == "range" and n == 3:
+                return "pyRange3 %s %s %s" % tuple(self.val(x) for x in e.args)
+            if f.id == "format" and n == 2 and isinstance(e.args[1], ast.Constant) and e.args[1].value == "X":
+                return "pyFmtHexU 0 %s" % self.val(e.args[0])
+            if f.id == "range" and n in (1, 2):
+                lo = "(Val.num 0)" if n == 1 else self.val(e.args[0])
+                return "pyRange %s %s" % (lo, self.val(e.args[-1]))
+            if f.id == "enumerate" and n == 1:
+                return "pyEnumerate %s" % self.val(e.args[0])
+            if f.id in ("list", "tuple") and n == 1:
+                return "pyList %s" % self.val(e.args[0])
+            if f.id == "next" and n == 1:
+                return "pyNext %s" % self.val(e.args[0])
+            if f.id == "sorted" and n == 1:
+                return "pySorted %s" % self.val(e.args[0])
+            if f.id == "wrap" and n == 2 and self.mc.imports.get("wrap", (None, None))[1] == "wrap":
+                return "pyWrap %s %s" % (self.val(e.args[0]), self.val(e.args[1]))
+            if f.id == "map" and n == 2:
+                self.tmp += 1
+                x = "x__%d" % self.tmp
+                fake = ast.Call(func=e.args[0], args=[ast.Name(id=x, ctx=ast.Load())], keywords=[])
+                self.locals.add(x)
+                try:
+                    inner = self.val(fake)
+                finally:
+                    self.locals.discard(x)
+                pad = "  " * (getattr(self, "cur_ind", 1) + 3)
+                return "pyComp %s (fun %s => do\n%sreturn some %s)" % (self.val(e.args[1]), x, pad, inner)
+        # --- idiom: min(range(n), key=seq.__getitem__)  (index of the first minimum)
+        if (isinstance(f, ast.Name) and f.id in ("min", "max") and len(e.args) == 1 and len(e.keywords) == 1
+                and e.keywords[0].arg == "key" and isinstance(e.keywords[0].value, ast.Attribute)
+                and e.keywords[0].value.attr == "__getitem__" and isinstance(e.args[0], ast.Call)
+                and isinstance(e.args[0].func, ast.Name) and e.args[0].func.id == "range" and len(e.args[0].args) == 1):
+            return "pyArg%s %s %s" % (f.id.capitalize(), self.val(e.keywords[0].value.value), self.val(e.args[0].args[0]))
+        # --- numpy idioms of rtlreader: a.reshape(-1, w) (rows of w items), rows.mean(axis=1)
+        if (isinstance(f, ast.Attribute) and f.attr == "reshape" and len(e.args) == 2 and not e.keywords
+                and isinstance(e.args[0], ast.UnaryOp) and isinstance(e.args[0].op, ast.USub)
+                and isinstance(e.args[0].operand, ast.Constant) and e.args[0].operand.value == 1):
+            return "pyReshapeRows %s %s" % (self.val(f.value), self.val(e.args[1]))
+        if (isinstance(f, ast.Attribute) and f.attr == "mean" and not e.args and len(e.keywords) == 1
+                and e.keywords[0].arg == "axis" and isinstance(e.keywords[0].value, ast.Constant) and e.keywords[0].value.value == 1):
+            return "pyMeanRows %s" % self.val(f.value)
+        # --- dict.get
+        if isinstance(f, ast.Attribute) and f.attr == "get" and len(e.args) in (1, 2) and not e.keywords:
+            dflt = self.val(e.args[1]) if len(e.args) == 2 else "Val.none"
+            return "pyDictGet %s %s %s" % (self.val(f.value), self.val(e.args[0]), dflt)
+        # --- sep.join(seq)
+        if isinstance(f, ast.Attribute) and f.attr == "join" and len(e.args) == 1 and not e.keywords:
+            return "pyJoin %s %s" % (self.val(f.value), self.val(e.args[0]))
         # --- builtins
         if isinstance(f, ast.Name) and f.id not in self.mc.funcs and f.id not in self.mc.imports:
             if e.keywords:
@@ -540,9 +1078,20 @@ class FnTranslator:
         if isinstance(f, ast.Attribute) and f.attr == "format" and isinstance(f.value, ast.Constant):
             if f.value.value == "{0:X}" and len(e.args) == 1:
                 return "pyFmtHexU 0 %s" % self.val(e.args[0])
+            fmt = f.value.value
+            if isinstance(fmt, str) and fmt.count("{}") == 1 and fmt.count("{") == 1 and len(e.args) == 1 and not e.keywords:
+                pre, post = fmt.split("{}")
+                return "pyFormat1 %s %s %s" % (lean_str(pre) if pre else "(Val.str [])", self.val(e.args[0]),
+                                               lean_str(post) if post else "(Val.str [])")
             raise Unsupported("str.format")
         # --- string methods
-        if isinstance(f, ast.Attribute) and not (isinstance(f.value, ast.Name) and (f.value.id in self.mc.imports or f.value.id in MODULE_ALIASES) and f.value.id not in self.locals):
+        root = f
+        while isinstance(root, ast.Attribute):
+            root = root.value
+        root_is_module = isinstance(root, ast.Name) and root.id not in self.locals and (root.id in self.mc.imports or root.id in MODULE_ALIASES)
+        if isinstance(f, ast.Attribute) and f.attr == "keys" and not e.args and self.rooted_local(f.value):
+            return "pyKeys %s" % self.val(f.value)
+        if isinstance(f, ast.Attribute) and not root_is_module:
             prim = METHODS.get((f.attr, len(e.args)))
             if prim is None or e.keywords:
                 raise Unsupported("method .%s/%d" % (f.attr, len(e.args)))
@@ -591,7 +1140,27 @@ def load_module(repo, relpath, ns):
                     mc.imports[local] = (None, a.name)
         elif isinstance(node, ast.Import):
             for a in node.names:
-                mc.imports[a.asname or a.name] = (None, None)
+                mc.imports[a.asname or a.name] = ("pyModeS" if a.name == "pyModeS" else None, None)
+        elif isinstance(node, (ast.Assign, ast.AnnAssign)):
+            tgt = node.targets[0] if isinstance(node, ast.Assign) and len(node.targets) == 1 else getattr(node, "target", None)
+            if isinstance(tgt, ast.Name) and node.value is not None:
+                try:
+                    mc.consts[tgt.id] = pure_literal(node.value, mc.consts)
+                    if tgt.id not in mc.const_order:
+                        mc.const_order.append(tgt.id)
+                except Unsupported:
+                    mc.consts.pop(tgt.id, None)
+        elif isinstance(node, ast.ClassDef):
+            bases = [b.id for b in node.bases if isinstance(b, ast.Name)]
+            methods = {}
+            for sub in node.body:
+                if isinstance(sub, ast.FunctionDef) and sub.args.args and sub.args.args[0].arg == "self" and not sub.decorator_list:
+                    argnames = [a.arg for a in sub.args.args]
+                    nd = len(sub.args.defaults)
+                    defaults = [None] * (len(argnames) - nd) + list(sub.args.defaults)
+                    fi = FnInfo(ns, "%s_%s" % (node.name, sub.name), sub, argnames, defaults, cls=node.name)
+                    methods[sub.name] = fi
+            mc.classes[node.name] = dict(bases=bases, methods=methods)
         elif isinstance(node, ast.FunctionDef):
             # decorator factory of the form  def deco(func): def wrapper(...): ...; return wrapper
             inner = [n for n in node.body if isinstance(n, ast.FunctionDef)]
@@ -626,7 +1195,7 @@ def toposort(fis):
 
 def main():
     repo = "/repo"
-    out = os.path.join(VERIF, "lean", "PyModeS", "Generated", "Src")
+    out = os.path.join(os.environ.get("VERIF_LEAN_DIR") or os.path.join(VERIF, "lean"), "PyModeS", "Generated", "Src")
     status_path = os.path.join(out, "status.json")
     a = sys.argv[1:]
     if "--repo" in a:
@@ -650,26 +1219,43 @@ def main():
         mc = mods[ns]
         for fi in mc.funcs.values():
             tr.translate_function(mc, fi)
-        good = [f for f in mc.funcs.values() if f.lean is not None]
+        allf = list(mc.funcs.values())
+        for cname, cd in mc.classes.items():
+            for fi in cd["methods"].values():
+                tr.translate_function(mc, fi)
+                allf.append(fi)
+        good = [f for f in allf if f.lean is not None]
         imports = sorted({d[0] for f in good for d in f.deps if d[0] != ns})
+        if not good and not mc.consts:
+            pass
         lines = ["-- GENERATED by harness/py2lean.py from %s (sha256 %s) -- do not edit" % (mc.path, mc.sha),
                  "import PyModeS.Py.Val", "import PyModeS.Py.Ext"]
         lines += ["import PyModeS.Generated.Src.%s" % i for i in imports]
         lines += ["set_option linter.unusedVariables false", "namespace PyModeS.Gen.%s" % ns,
                   "open PyModeS PyModeS.Py PyModeS.Gen", ""]
+        for cname in mc.const_order:
+            if cname in mc.consts:
+                lines.append("/-- %s: module-level `%s` -/\ndef %s : Val := %s\n" % (mc.path, cname, ident(cname), mc.consts[cname]))
+                status.setdefault("constants", []).append("%s.%s" % (ns, cname))
         for f in toposort(good):
             lines.append(f.lean)
             status["translated"].append("%s.%s" % (ns, f.name))
+            dfl = []
+            for d in f.defaults:
+                dfl.append("<required>" if d is None else (ast.literal_eval(d) if isinstance(d, ast.Constant) else "?"))
+            status.setdefault("signatures", {})["%s.%s" % (ns, f.name)] = dict(args=f.argnames, defaults=dfl)
+            if getattr(f, "partial", None):
+                status.setdefault("partial", {})["%s.%s" % (ns, f.name)] = f.partial
             index.append((ns, f.name, len(f.argnames)))
         lines.append("end PyModeS.Gen.%s" % ns)
         text = "\n".join(lines) + "\n"
         p = os.path.join(out, ns + ".lean")
         if not os.path.exists(p) or open(p).read() != text:
             open(p, "w").write(text)
-        for f in mc.funcs.values():
+        for f in allf:
             if f.lean is None:
                 status["skipped"]["%s.%s" % (ns, f.name)] = f.reason
-        status["modules"][ns] = {"path": mc.path, "sha": mc.sha, "translated": len(good), "skipped": len(mc.funcs) - len(good)}
+        status["modules"][ns] = {"path": mc.path, "sha": mc.sha, "translated": len(good), "skipped": len(allf) - len(good)}
     # dispatch table for the driver
     lines = ["-- GENERATED by harness/py2lean.py -- do not edit"]
     lines += ["import PyModeS.Generated.Src.%s" % ns for rel, ns in MODULES if ns in mods]
